@@ -1133,10 +1133,28 @@ theorem holeRanges_lt (holes : List Nat) (n : Nat) (hh : ∀ h ∈ holes, h ≤ 
     · simp at h; omega
   omega
 
+/-- `insertByX` adds exactly the inserted ring. -/
+theorem insertByX_perm (r : Ring) (l : List Ring) : (insertByX v r l).Perm (r :: l) := by
+  induction l with
+  | nil => exact List.Perm.refl _
+  | cons s t ih =>
+    simp only [insertByX]
+    split_ifs
+    · exact List.Perm.refl _
+    · exact (List.Perm.cons s ih).trans (List.Perm.swap r s t)
+
+/-- `sorted(queue, key=…)` only permutes the queue. -/
+theorem sortByX_perm (l : List Ring) : (sortByX v l).Perm l := by
+  induction l with
+  | nil => exact List.Perm.refl _
+  | cons r t ih =>
+    simp only [sortByX, List.foldr_cons] at ih ⊢
+    exact (insertByX_perm r _).trans (List.Perm.cons r ih)
+
 /-- Every ring of the hole queue only carries indices of some hole range. -/
 theorem holeQueue_ringIn (holes : List Nat) (n : Nat) (r : Ring) (hr : r ∈ holeQueue v holes n) :
     ∃ idx ∈ holeRanges holes n, RingIn (fun i => i ∈ idx) r := by
-  simp only [holeQueue, List.mem_mergeSort, List.mem_map] at hr
+  simp only [holeQueue, (sortByX_perm (v := v) _).mem_iff, List.mem_map] at hr
   obtain ⟨idx, hidx, rfl⟩ := hr
   refine ⟨idx, hidx, ?_⟩
   intro m hm
@@ -1265,7 +1283,7 @@ theorem holeQueue_area_sum (holes : List Nat) (n : Nat) :
       - ((holeRanges holes n).map fun idx => |shoelace (idx.map v)|).sum := by
   unfold holeQueue
   simp only []
-  rw [((List.mergeSort_perm _ _).map (ringArea v)).sum_eq, List.map_map]
+  rw [((sortByX_perm (v := v) _).map (ringArea v)).sum_eq, List.map_map]
   have : ∀ l : List (List Nat),
       (l.map ((ringArea v) ∘ fun idx =>
         (let l := linkedList v idx false
